@@ -704,7 +704,7 @@ func mustPrecede(fi *fw.FuncInfo, site *ast.CallExpr, pred func(*ast.CallExpr) b
 }
 
 var resultFields = map[string][]string{
-	"removeResult":       {"removed", "toClose", "triggerCancel", "initialized"},
+	"removeResult": {"removed", "toClose", "triggerCancel", "initialized"},
 	// removeClient reports removed/triggerDec to the reporter itself, before returning
 	"removeClientResult": {"toClose", "cancels"},
 }
